@@ -189,4 +189,5 @@ type Result struct {
 	Events     uint64           `json:"events"`
 	Case       *Case            `json:"case,omitempty"` // present for violations and samples
 	WallUs     int64            `json:"wallus"`
+	JournalH   uint64           `json:"journalh"` // hash of every journal entry (kind, path, offset, length, content crc, op, event stamp)
 }
